@@ -123,6 +123,11 @@ func c29Gen(rng *rand.Rand, tier string) []Case {
 		out = append(out, Case{ID: fmt.Sprintf("lb%d", i), Ops: []string{fmt.Sprintf("lconc %d %d", 1+rng.Intn(12), 1+rng.Intn(24))},
 			Nontrivial: true, Tags: []string{"logwriter-attach-race"}})
 	}
+	// monitors attaching and detaching while several goroutines log without pause
+	for i := 0; i < nConc/4+1; i++ {
+		out = append(out, Case{ID: fmt.Sprintf("lm%d", i), Ops: []string{fmt.Sprintf("lattach %d %d %d", []int{1, 8, 512}[i%3], 2+rng.Intn(4), 1500)},
+			Nontrivial: true, Tags: []string{"logwriter-attach-many"}})
+	}
 	for i := 0; i < nConc; i++ {
 		out = append(out, Case{ID: fmt.Sprintf("c%d", i),
 			Ops:        []string{fmt.Sprintf("gconc %d %d %d %d", 2+rng.Intn(7), 20+rng.Intn(200), 20+rng.Intn(200), rng.Int63())},
@@ -164,6 +169,15 @@ func c29Exec(ops []string) []string {
 			w, _ := strconv.Atoi(f[1])
 			rounds, _ := strconv.Atoi(f[2])
 			outs = append(outs, c29Rounds(w, rounds))
+		case len(f) == 4 && f[0] == "lattach":
+			c, e1 := strconv.Atoi(f[1])
+			w, e2 := strconv.Atoi(f[2])
+			k, e3 := strconv.Atoi(f[3])
+			if e1 != nil || e2 != nil || e3 != nil || c < 1 || w < 1 || w > 16 || k < 1 || k > 5000 {
+				outs = append(outs, "bad-op")
+				continue
+			}
+			outs = append(outs, c29AttachMany(c, w, k))
 		case len(f) == 3 && f[0] == "lconc":
 			c, e1 := strconv.Atoi(f[1])
 			k, e2 := strconv.Atoi(f[2])
@@ -264,6 +278,59 @@ func c29AttachRace(c, k int) string {
 	h.mu.Lock()
 	defer h.mu.Unlock()
 	return c29Show(h.lines)
+}
+
+// c29AttachMany: w goroutines log numbered lines without pause while monitors attach and detach k times.  What a
+// monitor receives is the last lines of the ring followed by every later line: per writer a run of consecutive
+// numbers, no line twice, none skipped.
+func c29AttachMany(c, w, k int) string {
+	lw := agent.NewLogWriter(c)
+	stop := make(chan struct{})
+	var wg sync.WaitGroup
+	for t := 0; t < w; t++ {
+		wg.Add(1)
+		go func(t int) {
+			defer wg.Done()
+			for i := 0; ; i++ {
+				select {
+				case <-stop:
+					return
+				default:
+				}
+				_, _ = lw.Write([]byte(fmt.Sprintf("%d-%d\n", t, i)))
+			}
+		}(t)
+	}
+	dup, gap, back := 0, 0, 0
+	for a := 0; a < k; a++ {
+		h := &c29Handler{}
+		lw.RegisterHandler(h)
+		time.Sleep(time.Duration(20+a%7*15) * time.Microsecond)
+		lw.DeregisterHandler(h)
+		h.mu.Lock()
+		last := map[int]int{}
+		for _, l := range h.lines {
+			var t, i int
+			if _, err := fmt.Sscanf(l, "%d-%d", &t, &i); err != nil {
+				continue
+			}
+			if p, ok := last[t]; ok {
+				switch {
+				case i == p:
+					dup++
+				case i < p:
+					back++
+				case i > p+1:
+					gap++
+				}
+			}
+			last[t] = i
+		}
+		h.mu.Unlock()
+	}
+	close(stop)
+	wg.Wait()
+	return fmt.Sprintf("attaches=%d dup=%d gap=%d back=%d", k, dup, gap, back)
 }
 
 // c29Conc: w writers write n1 lines each (phase 1, all Writes return before Flush is
